@@ -89,6 +89,41 @@ type MemFS struct {
 	logHash    uint64
 }
 
+// Aliases: directory aliases of the in-memory file system (alias path -> target directory),
+// the equivalent of a symbolic link to a directory: every path below an alias names the
+// file below its target. Set by the harness (Alias); resolved by every entry point.
+var aliases = map[string]string{}
+
+// Alias makes the directory path alias another name of target ("" removes it).
+func Alias(alias, target string) {
+	alias = filepath.Clean(alias)
+	if target == "" {
+		delete(aliases, alias)
+		return
+	}
+	aliases[alias] = filepath.Clean(target)
+}
+
+// ResetAliases forgets every alias (between executions).
+func ResetAliases() { aliases = map[string]string{} }
+
+// Canon cleans a path and replaces a leading alias by its target.
+func Canon(p string) string {
+	p = filepath.Clean(p)
+	if FS == nil || len(aliases) == 0 {
+		return p
+	}
+	for a, t := range aliases {
+		if p == a {
+			return t
+		}
+		if strings.HasPrefix(p, a+"/") {
+			return t + p[len(a):]
+		}
+	}
+	return p
+}
+
 func NewMemFS() *MemFS {
 	return &MemFS{files: map[string]*node{}, dirs: map[string]bool{"/": true}, counts: map[string]int{}, faults: map[string]map[int]bool{}}
 }
@@ -156,7 +191,7 @@ func (m *MemFS) ClearFaults() {
 func (m *MemFS) Exists(path string) bool {
 	m.mu.Lock()
 	defer m.mu.Unlock()
-	_, ok := m.files[filepath.Clean(path)]
+	_, ok := m.files[Canon(path)]
 	return ok
 }
 
@@ -231,14 +266,14 @@ func (m *MemFS) ApplyOp(op Op, tornBytes int) {
 func (m *MemFS) WriteFileRaw(path string, data []byte) {
 	m.mu.Lock()
 	defer m.mu.Unlock()
-	path = filepath.Clean(path)
+	path = Canon(path)
 	m.mkdirAllLocked(filepath.Dir(path))
 	m.files[path] = &node{data: append([]byte(nil), data...)}
 }
 func (m *MemFS) RemoveRaw(path string) {
 	m.mu.Lock()
 	defer m.mu.Unlock()
-	delete(m.files, filepath.Clean(path))
+	delete(m.files, Canon(path))
 }
 
 func (m *MemFS) mkdirAllLocked(p string) {
@@ -416,7 +451,7 @@ func MkdirAll(path string, perm FileMode) error {
 	if m == nil {
 		return ros.MkdirAll(path, perm)
 	}
-	path = filepath.Clean(path)
+	path = Canon(path)
 	if err := m.enter("mkdirall", path); err != nil {
 		return err
 	}
@@ -443,7 +478,7 @@ func OpenFile(name string, flag int, perm FileMode) (*File, error) {
 		}
 		return &File{real: f}, nil
 	}
-	name = filepath.Clean(name)
+	name = Canon(name)
 	if err := m.enter("openfile", name); err != nil {
 		return nil, err
 	}
@@ -496,7 +531,7 @@ func Create(name string) (*File, error) {
 		}
 		return &File{real: f}, nil
 	}
-	name = filepath.Clean(name)
+	name = Canon(name)
 	if err := m.enter("create", name); err != nil {
 		return nil, err
 	}
@@ -512,7 +547,7 @@ func Open(name string) (*File, error) {
 		}
 		return &File{real: f}, nil
 	}
-	name = filepath.Clean(name)
+	name = Canon(name)
 	if err := m.enter("open", name); err != nil {
 		return nil, err
 	}
@@ -524,7 +559,7 @@ func Remove(name string) error {
 	if m == nil {
 		return ros.Remove(name)
 	}
-	name = filepath.Clean(name)
+	name = Canon(name)
 	if err := m.enter("remove", name); err != nil {
 		return err
 	}
@@ -547,7 +582,7 @@ func RemoveAll(name string) error {
 	if m == nil {
 		return ros.RemoveAll(name)
 	}
-	name = filepath.Clean(name)
+	name = Canon(name)
 	if err := m.enter("removeall", name); err != nil {
 		return err
 	}
@@ -572,7 +607,7 @@ func Rename(from, to string) error {
 	if m == nil {
 		return ros.Rename(from, to)
 	}
-	from, to = filepath.Clean(from), filepath.Clean(to)
+	from, to = Canon(from), Canon(to)
 	if err := m.enter("rename", from); err != nil {
 		return err
 	}
@@ -593,7 +628,7 @@ func Stat(name string) (FileInfo, error) {
 	if m == nil {
 		return ros.Stat(name)
 	}
-	name = filepath.Clean(name)
+	name = Canon(name)
 	if err := m.enter("stat", name); err != nil {
 		return nil, err
 	}
@@ -615,7 +650,7 @@ func ReadDir(name string) ([]DirEntry, error) {
 	if m == nil {
 		return ros.ReadDir(name)
 	}
-	name = filepath.Clean(name)
+	name = Canon(name)
 	if err := m.enter("readdir", name); err != nil {
 		return nil, err
 	}
@@ -734,7 +769,7 @@ func Truncate(name string, size int64) error {
 	if m == nil {
 		return ros.Truncate(name, size)
 	}
-	name = filepath.Clean(name)
+	name = Canon(name)
 	if err := m.enter("truncate", name); err != nil {
 		return err
 	}
